@@ -52,7 +52,10 @@ def correspondence(ctx):
         if isinstance(ux, core.ImplError) or not core.close(mux, ux, 1e-8, 1e-10):
             bad.append({"op": "fa_score:estimate_ux", "input": inp, "model": mux, "impl": repr(ux) if isinstance(ux, core.ImplError) else ux})
         s = core.impl(lambda: float(mach.score(model_arg(sc), sts)))
+        s_again = core.impl(lambda: float(mach.score(model_arg(sc), sts)))  # the model is a function of the probe: same objects, same score
         ms = core.dec(o["score"])
+        if isinstance(s_again, core.ImplError) or not core.close(ms, s_again, 1e-8, 1e-9):
+            bad.append({"op": "fa_score:score", "input": inp, "model": ms, "impl": repr(s_again), "what": "second call with the same probe objects"})
         if isinstance(s, core.ImplError) or not core.close(ms, s, 1e-8, 1e-9):
             bad.append({"op": "fa_score:score", "input": inp, "model": ms, "impl": repr(s) if isinstance(s, core.ImplError) else s})
     # array-level entry points: the model is fed the UBM statistics of the arrays (tied by C02)
@@ -109,6 +112,9 @@ def oracle(sc):
     ref = float(np.asarray(linear_scoring(client.reshape(C, D), mach.ubm, pooled, (U @ xref).reshape(C, D), True))[0][0])
     if not core.close(s, ref, 1e-8, 1e-9):
         return {"sig": "score-is-not-compensated-linear-score", "what": f"score {s} vs linear score of the client mean with offset U x: {ref}"}
+    again = core.impl(lambda: float(mach.score((sc["y"], sc["z"]) if sc["jfa"] else sc["z"], sts)))
+    if isinstance(again, core.ImplError) or not core.close(s, again, 1e-12, 1e-12):
+        return {"sig": "score-of-the-same-probe-changes", "what": f"scoring the same list of {len(sts)} statistics twice: {s} then {again!r}"}
     s2 = core.impl(lambda: float(mach.score((sc["y"], sc["z"]) if sc["jfa"] else sc["z"], [pooled])))
     if isinstance(s2, core.ImplError) or not core.close(s, s2, 1e-9, 1e-10):
         return {"sig": "pooling-changes-score", "what": f"list of {len(sts)} statistics: {s}; their sum: {s2!r}"}
